@@ -200,6 +200,12 @@ func (rt *Rt) addProbes() {
 			rt.record(env, "host-panic", Canon(args.Cells[0]))
 			panic("host-panic: " + Canon(args.Cells[0]))
 		}),
+		// (host-panic-handler c data...) is a Go builtin usable directly in
+		// handler position; it panics while handling.
+		HostBuiltin("host-panic-handler", lisp.Formals("c", lisp.VarArgSymbol, "d"), func(env *lisp.LEnv, args *lisp.LVal) *lisp.LVal {
+			rt.record(env, "host-panic-handler", Canon(args.Cells[0]))
+			panic("host-panic-handler: " + Canon(args.Cells[0]))
+		}),
 		// (host-see tag err) remembers the very error object it was handed.
 		HostBuiltin("host-see", lisp.Formals("tag", "v"), func(env *lisp.LEnv, args *lisp.LVal) *lisp.LVal {
 			rt.HostErrs = append(rt.HostErrs, args.Cells[1])
